@@ -311,6 +311,10 @@ def gen_case(rng, spec, tier_long=False) -> dict:
     if method == "period_by_period":
         T = min(T, 7)
     terminal = rng.choice(["first_order", "first_order", "data"])
+    if ehi <= 0 < hi:
+        # the only lead sits on the exogenous variable: the first-order Terminator of the current code raises
+        # (zip(*()) in Terminator.__init__: no terminal unknowns) before anything is simulated -- not a case
+        terminal = "data"
     ig = rng.choice(["first_order", "data"])
     n = spec["n"]
     nv = spec.get("nv", 1)
@@ -390,8 +394,11 @@ def gen_case(rng, spec, tier_long=False) -> dict:
         en = {(p[1], p[2][1:]) for p in plan if p[0] == "endogenized_unanticipated"}
         plan = [p for p in plan if not p[0].endswith("_unanticipated") or ((p[1], p[2][1:]) in ex & en)]
     step_tol = rng.choice([None, 1e10, 1e10, 1e10])
+    # non-default output options of simulate, and input series with fewer variants than the model (broadcast)
+    opts = {"remove_terminal": rng.random() < 0.3, "remove_initial": rng.random() < 0.8,
+            "prepend_input": rng.random() < 0.8, "collapse_equal_variants": nv > 1 and rng.random() < 0.4}
     return {"spec": spec, "start": 8000 + rng.randint(0, 40), "nper": T, "method": method, "terminal": terminal,
-            "initial_guess": ig, "values": vvalues, "plan": plan, "step_tol": step_tol}
+            "initial_guess": ig, "values": vvalues, "plan": plan, "step_tol": step_tol, "opts": opts}
 
 
 def _qq(serial):
@@ -428,6 +435,15 @@ def make_input(case, m):
                 val = base * (1 + val[1]) if (spec["log"][i] or abs(base) > 0.3) else base + val[1]
             row[v] = float("nan") if val == "nan" else float(val)
         db[name][per] = row if nv > 1 else row[0]
+    if nv > 1 and case.get("opts", {}).get("collapse_equal_variants"):
+        # a series whose variants are all equal is passed with a single variant (the last variant is repeated)
+        for name in list(db.keys()):
+            x = db[name]
+            if hasattr(x, "data") and hasattr(x, "start") and x.data.shape[1] > 1:
+                d = x.data
+                same = all(np.array_equal(d[:, 0], d[:, k], equal_nan=True) for k in range(1, d.shape[1]))
+                if same and x.start is not None:
+                    db[name] = ir.Series(start=x.start, values=d[:, :1].copy())
     plan = None
     if case["plan"]:
         plan = ir.PlanSimulate(m, span) if hasattr(ir, "PlanSimulate") else ir.SimulationPlan(m, span)
@@ -621,8 +637,12 @@ def run_sim(case, m=None) -> dict:
             kw["terminal"] = case["terminal"]
         try:
             with contextlib.redirect_stdout(io.StringIO()):
+                o = case.get("opts") or {}
                 out, info = m.simulate(db, span, method=case["method"], plan=plan, return_info=True,
-                                       remove_terminal=False, when_fails="silent", unpack_singleton=False,
+                                       remove_terminal=bool(o.get("remove_terminal", False)),
+                                       remove_initial=bool(o.get("remove_initial", True)),
+                                       prepend_input=bool(o.get("prepend_input", True)),
+                                       when_fails="silent", unpack_singleton=False,
                                        initial_guess=case["initial_guess"], **kw)
         except Exception as e:  # noqa
             import traceback
